@@ -44,6 +44,76 @@ def strategy(tier):
     })
 
 
+def extra_cases(tier, seed, shard, nshards):
+    """engine R smoke: real masters, real kill -9 / TTIN / TTOU / HUP sequences, /proc compared with the model"""
+    import random
+    rng = random.Random(seed * 7919 + 17)
+    n = 6 if tier == "quick" else 32
+    for i in range(n):
+        ops = [rng.choice(["kill9", "kill9", "ttin", "ttou", "term-worker", "hup"]) for _ in range(rng.randint(2, 7))]
+        c = {"engine": "R", "kind": ["sync", "gthread", "gevent", "eventlet"][i % 4], "workers": rng.randint(1, 3), "ops": ops,
+             "gaps": [round(rng.choice([0.0, 0.05, 0.3]), 2) for _ in ops]}
+        if i % nshards == shard:
+            yield c
+
+
+def run_real(case):
+    import os
+    import signal as sg
+    import time
+    from vlib import renv
+    srv = renv.Server(kind=case["kind"], workers=None, bind="unix", graceful=2, timeout=30, threads=2 if case["kind"] == "gthread" else None,
+                      conf_lines=["workers = %d" % case["workers"]])
+    vio = []
+    try:
+        if not srv.wait_ready():
+            return Outcome([], False, ["engine:R", "inconclusive:not-ready"])
+        target = case["workers"]
+        time.sleep(0.3)
+        for op, gap in zip(case["ops"], case["gaps"]):
+            ws = srv.workers()
+            if op == "kill9" and ws:
+                os.kill(ws[0], sg.SIGKILL)
+            elif op == "term-worker" and ws:
+                os.kill(ws[-1], sg.SIGTERM)
+            elif op == "ttin":
+                srv.signal(sg.SIGTTIN)
+                target += 1
+                time.sleep(0.15)          # the master queues at most 5 signals; keep clear of that
+            elif op == "ttou":
+                srv.signal(sg.SIGTTOU)
+                target = target - 1 if target > 1 else target
+                time.sleep(0.15)
+            elif op == "hup":
+                srv.signal(sg.SIGHUP)
+                target = case["workers"]
+                time.sleep(0.4)
+            time.sleep(gap)
+        # quiescence
+        t0 = time.time()
+        last, since = None, time.time()
+        while time.time() - t0 < 14:
+            w = srv.workers()
+            if w != last:
+                last, since = w, time.time()
+            elif time.time() - since > 1.5:
+                break
+            time.sleep(0.1)
+        final = srv.workers()
+        zombies = [p for p in renv.all_pids() if (renv.stat(p) or {}).get("ppid") == srv.pid and renv.stat(p)["state"] == "Z"]
+        if len(final) != target:
+            vio.append(Violation("converges-to-target", "C03/real:pool-size-%d-target-%d" % (len(final), target),
+                                 observed={"case": case, "children": final, "log_tail": srv.logtext()[-1200:]}, expected=target))
+        if zombies:
+            vio.append(Violation("no-zombies", "C03/real:zombie-children", observed={"zombies": zombies, "case": case}, expected="none"))
+        r, data, err = srv.request("/pid", timeout=5)
+        if r is None or not (r.ok and r.status == 200):
+            vio.append(Violation("keeps-serving", "C03/real:not-serving-after-history", observed={"error": err, "case": case}, expected="200"))
+        return Outcome(vio, True, ["engine:R", "kind:" + case["kind"]], sample={"case": case, "final": len(final), "target": target})
+    finally:
+        srv.cleanup()
+
+
 def model_target(case, applied):
     t = case["workers"]
     for ev in applied:
@@ -59,6 +129,8 @@ def model_target(case, applied):
 
 
 def run_case(case):
+    if case.get("engine") == "R":
+        return run_real(case)
     k = ksim.Kernel(case["sched"], case["events"], quiesce_steps=case["timeout"] + 8)
     out = ksim.run_arbiter(k, {"workers": case["workers"], "timeout": case["timeout"], "graceful_timeout": 3})
     arb = out["arbiter"]
